@@ -234,6 +234,27 @@ impl ShimNzGet for core::num::NonZeroU32 {
     fn shim_nz_get(&self) -> (r: u32) ensures r == nonzero_get(*self) { self.get() }
 }
 
+// ---------------- naga's Layouter (its numbers ARE the WGSL layout: DESIGN 4.7) ----------------
+#[verifier::external_type_specification] #[verifier::external_body] pub struct ExLayouter(naga::proc::Layouter);
+#[verifier::external_type_specification] #[verifier::external_body] pub struct ExAlignment(naga::proc::Alignment);
+#[verifier::external_type_specification] pub struct ExTypeLayout(naga::proc::TypeLayout);
+#[verifier::external_type_specification] #[verifier::external_body] pub struct ExLayoutError(naga::proc::LayoutError);
+// the WGSL byte size of type i of the module (naga's layout algorithm, uninterpreted)
+pub uninterp spec fn wgsl_size(m: &naga::Module, i: int) -> u32;
+pub uninterp spec fn layouter_module(l: &naga::proc::Layouter) -> Option<&naga::Module>;
+pub uninterp spec fn layout_ok(m: &naga::Module) -> bool;   // naga can lay out every type of the module
+pub assume_specification[ <naga::proc::Layouter as Default>::default ]() -> (r: naga::proc::Layouter)
+    ensures layouter_module(&r) is None;
+pub assume_specification[ naga::proc::Layouter::update ](l: &mut naga::proc::Layouter, c: naga::proc::GlobalCtx<'_>) -> (r: Result<(), naga::proc::LayoutError>)
+    ensures (r is Ok) == layout_ok(ctx_module(c)), r is Ok ==> layouter_module(final(l)) == Some(ctx_module(c));
+pub assume_specification[ <naga::proc::Layouter as core::ops::Index<naga::Handle<naga::Type>>>::index ](l: &naga::proc::Layouter, h: naga::Handle<naga::Type>) -> (r: &naga::proc::TypeLayout)
+    ensures layouter_module(l) is Some ==> r.size == wgsl_size(layouter_module(l)->0, handle_index(h));
+pub broadcast axiom fn axiom_layouter_index_req(l: naga::proc::Layouter, h: naga::Handle<naga::Type>)
+    ensures #[trigger] vstd::std_specs::core::IndexSpec::index_req(&l, &h) == (layouter_module(&l) is Some && 0 <= handle_index(h) < uarena_seq(&layouter_module(&l)->0.types).len());
+
+// the elements still held by a vec::IntoIter (a non-prophetic view; the eager iterator stand-ins state elems == remaining)
+pub uninterp spec fn elems<T>(it: &std::vec::IntoIter<T>) -> Seq<T>;
+
 // ---------------- arrays ----------------
 pub assume_specification<T, const N: usize, F: FnMut(T) -> U, U>[ <[T; N]>::map ](a: [T; N], f: F) -> (r: [U; N])
     requires forall|i: int| 0 <= i < N ==> f.requires((#[trigger] a@[i],)),
